@@ -181,7 +181,7 @@ func c13Build(id string, lhs, goType, kind string, args []string, tag string, mo
 				*unsupp = "sequence of unknown model " + sub
 				return ""
 			}
-			inner = fmt.Sprintf("e = verif%sBuild_%s(d-1, ^uint64(0), ln)\n", id, sub)
+			inner = fmt.Sprintf("e = verif%sBuild_%s(d-1, ^uint64(0), (ln+i)%%4)\n", id, sub) // elements of different encoded sizes
 			fmt.Fprintf(&sb, "\tif d <= 0 {\n\t\tbreak\n\t}\n")
 		}
 		if ek == "name" {
@@ -192,6 +192,45 @@ func c13Build(id string, lhs, goType, kind string, args []string, tag string, mo
 		}
 		sb.WriteString(indent(inner))
 		fmt.Fprintf(&sb, "\t%s = append(%s, e)\n}\n", lhs, lhs)
+		return sb.String()
+	case "map":
+		// map:<keyGoType>:<keyKind>:<valTLV>:<valGoType>:<valKind>[:sub] - up to "maplen" entries with distinct keys whose
+		// values differ in encoded size (width class / byte length rotate per entry)
+		if len(args) < 5 || (args[1] != "string" && args[1] != "natural") {
+			*unsupp = "map with key kind other than string/natural"
+			return ""
+		}
+		kt, kk, vt, vk := args[0], args[1], args[3], args[4]
+		var sb strings.Builder
+		fmt.Fprintf(&sb, "if %s {\n\t%s = map[%s]%s{}\n\tfor i, n := 0, verifParam(\"maplen\", 2); i < n; i++ {\n", pres, lhs, kt, vt)
+		if kk == "string" {
+			fmt.Fprintf(&sb, "\t\tkb := verifBytesN(%q, 1)\n\t\tverifAssume(kb[0]%%4 == byte(i))\n\t\tk := %s(kb)\n", tag+"k", kt)
+		} else {
+			fmt.Fprintf(&sb, "\t\tk := %s(verif%sNat(%q, (ln+i)%%4, 1<<64-1))\n\t\tverifAssume(uint64(k)%%4 == uint64(i))\n", kt, id, tag+"k")
+		}
+		fmt.Fprintf(&sb, "\t\tvar e %s\n", vt)
+		switch vk {
+		case "struct":
+			sub := strings.TrimPrefix(vt, "*")
+			if len(args) > 5 {
+				sub = args[5]
+			}
+			if _, ok := models[sub]; !ok {
+				*unsupp = "map of unknown model " + sub
+				return ""
+			}
+			fmt.Fprintf(&sb, "\t\tif d <= 0 {\n\t\t\tbreak\n\t\t}\n\t\te = verif%sBuild_%s(d-1, ^uint64(0), (ln+i)%%4)\n", id, sub)
+		case "binary":
+			fmt.Fprintf(&sb, "\t\te = verifBytesN(%q, (bl+i)%%3)\n", tag+"v")
+		case "string":
+			fmt.Fprintf(&sb, "\t\te = %s(verifBytesN(%q, (bl+i)%%3))\n", vt, tag+"v")
+		case "natural":
+			fmt.Fprintf(&sb, "\t\te = %s(verif%sNat(%q, (ln+i)%%4, 1<<64-1))\n", vt, id, tag+"v")
+		default:
+			*unsupp = "map with value kind " + vk
+			return ""
+		}
+		fmt.Fprintf(&sb, "\t\t%s[k] = e\n\t}\n}\n", lhs)
 		return sb.String()
 	case "procedureArgument", "offsetMarker", "rangeMarker":
 		return ""
@@ -243,6 +282,13 @@ func c13Eq(id string, a, b, goType, kind string, args []string, label string, mo
 			sub = args[0]
 		}
 		return fmt.Sprintf("verifAssert((%s == nil) == (%s == nil), %q)\nif %s != nil && %s != nil {\n\tverif%sEq_%s(%s, %s)\n}\n", a, b, label+"/presence", a, b, id, sub, a, b)
+	case "map":
+		vt, vk := args[3], args[4]
+		var sb strings.Builder
+		fmt.Fprintf(&sb, "verifAssert(len(%s) == len(%s), %q)\nfor k, va := range %s {\n\tvb, ok := %s[k]\n\tverifAssert(ok, %q)\n\tif !ok {\n\t\tcontinue\n\t}\n", a, b, label+"/count", a, b, label+"/map-key-present")
+		sb.WriteString(indent(c13Eq(id, "va", "vb", vt, vk, args[5:], label, models)))
+		sb.WriteString("}\n")
+		return sb.String()
 	case "sequence":
 		et, ek := args[0], args[1]
 		var sb strings.Builder
@@ -327,6 +373,11 @@ func genC13Models(id string) ([]harnessFile, error) {
 						}
 					} else if f.kind == "sequence" && len(f.args) > 1 && f.args[1] == "struct" {
 						sub = strings.TrimPrefix(f.args[0], "*")
+					} else if f.kind == "map" && len(f.args) > 4 && f.args[4] == "struct" {
+						sub = strings.TrimPrefix(f.args[3], "*")
+						if len(f.args) > 5 {
+							sub = f.args[5]
+						}
 					}
 					if sub != "" {
 						if sm, ok := models[sub]; !ok || sm.unsupp != "" || !has[sub] {
